@@ -16,6 +16,9 @@ package main
 //   C19 R <cfg> # <rows per producer> # <dropped input_count cap> # <processed ids>
 //       a RANDOM concurrent run (1-8 producers, consumer speeds); only the end state is judged,
 //       by the extracted checker chk_C19.
+//   Rows emitted as nil maps (c19d.go): an F line lists the ids they stand for in a 5th section (the sink records
+//   such a row as -1, the driver resolves it); an R line books them on a virtual last producer, by position
+//   (5th section `nil-rows-are-producer P`).
 //
 // <cfg> = strat cap max minInc gnum gden tnum tden bto   (strat 0 drop, 1 block, 3 expand; growth factor
 //         gnum/gden and trigger threshold tnum/tden are dyadic or exactly comparable; bto = OverflowConfig.
@@ -84,6 +87,10 @@ type c19World struct {
 	sinkTok  chan struct{}
 	delay    time.Duration
 	lg       *c19GateLog // optional: a logger that parks the goroutine writing a chosen debug line (c19c.go)
+	// nil rows (c19d.go): nilPick says which Emit calls carry a nil map instead of {"id": ...}; nilIDs = the ids
+	// those rows stand for, in emission order. The sink sees such a row without an id (recorded as -1).
+	nilPick func(p, k int) bool
+	nilIDs  []int
 }
 
 func c19ID(p, k int) int { return p*100000 + k }
@@ -110,7 +117,7 @@ func newC19WorldLog(c c19Cfg, gateSink bool, delay time.Duration, lg *c19GateLog
 	pc.OverflowConfig.ExpansionConfig.GrowthFactor = float64(c.gnum) / float64(c.gden)
 	pc.OverflowConfig.ExpansionConfig.MinIncrement = c.minInc
 	pc.OverflowConfig.ExpansionConfig.TriggerThreshold = float64(c.tnum) / float64(c.tden)
-	w := &c19World{sinkIn: make(chan int, 1<<16), sinkTok: make(chan struct{}, 1<<16), delay: delay, lg: lg}
+	w := &c19World{sinkIn: make(chan int, 1<<16), sinkTok: make(chan struct{}, 1<<16), delay: delay, lg: lg, nilPick: c19NilPick}
 	if gateSink {
 		w.gateSink = 1
 	}
@@ -147,7 +154,17 @@ func newC19WorldLog(c c19Cfg, gateSink bool, delay time.Duration, lg *c19GateLog
 	return w, nil
 }
 
-func (w *c19World) emit(p, k int) { w.s.Emit(map[string]interface{}{"id": c19ID(p, k)}) }
+func (w *c19World) emit(p, k int) {
+	if w.nilPick != nil && w.nilPick(p, k) {
+		// a nil map is a legal row: Emit(nil) is buffered, migrated, processed and counted like any other row
+		w.mu.Lock()
+		w.nilIDs = append(w.nilIDs, c19ID(p, k))
+		w.mu.Unlock()
+		w.s.Emit(nil)
+		return
+	}
+	w.s.Emit(map[string]interface{}{"id": c19ID(p, k)})
+}
 
 // emitWait performs one Emit on its own goroutine and waits up to d for it to return (false: still running)
 func (w *c19World) emitWait(p, k int, d time.Duration) (chan struct{}, bool) {
@@ -191,6 +208,16 @@ func (w *c19World) final(steps []string) string {
 	for _, id := range ids {
 		fmt.Fprintf(&sb, " %d", id)
 	}
+	// the rows emitted as nil maps (5th section): the sink cannot tell them apart (processed id -1), the driver
+	// gives the j-th processed nil row the identity of an emitted nil row not yet accounted for
+	w.mu.Lock()
+	if len(w.nilIDs) > 0 {
+		sb.WriteString(" #")
+		for _, id := range w.nilIDs {
+			fmt.Fprintf(&sb, " %d", id)
+		}
+	}
+	w.mu.Unlock()
 	return fmt.Sprintf("%s # %d %d %d %d #%s", strings.Join(steps, " "), st[stream.InputDroppedCount], st[stream.InputCount],
 		st[stream.DataChanCap], st[stream.DataChanLen], sb.String())
 }
@@ -516,7 +543,11 @@ func c19Concurrent(c c19Cfg, ns []int, pauses []int, delay time.Duration, rng *R
 		return err
 	}
 	P := len(ns)
-	issued := make([]int64, P) // Emit calls actually made (a producer that hangs stops short of ns[p])
+	// nil rows (c19d.go): nilPct % of every producer's Emit calls carry a nil map. The sink cannot tell whose they
+	// are, so they are booked on a virtual producer P (issued[P] = nil rows emitted; the j-th nil row the sink
+	// sees is (P, j)); the ids of producer p number its other rows.
+	nilPct := c19NilPct
+	issued := make([]int64, P+1) // Emit calls actually made (a producer that hangs stops short of ns[p])
 	var wg sync.WaitGroup
 	total := 0
 	for p := 0; p < P; p++ {
@@ -527,9 +558,16 @@ func c19Concurrent(c c19Cfg, ns []int, pauses []int, delay time.Duration, rng *R
 		go func(p, n int) {
 			defer wg.Done()
 			r := NewRNG(seed)
-			for k := 0; k < n; k++ {
-				atomic.AddInt64(&issued[p], 1)
-				w.emit(p, k)
+			nr := NewRNG(seed ^ 0x9e3779b97f4a7c15)
+			for i, k := 0, 0; i < n; i++ {
+				if nilPct > 0 && nr.Intn(100) < nilPct {
+					atomic.AddInt64(&issued[P], 1)
+					w.s.Emit(nil)
+				} else {
+					atomic.AddInt64(&issued[p], 1)
+					w.emit(p, k)
+					k++
+				}
 				if pause > 0 && r.Intn(pause+1) == 0 {
 					time.Sleep(time.Duration(r.Intn(150)) * time.Microsecond)
 				}
@@ -565,12 +603,21 @@ func c19Concurrent(c c19Cfg, ns []int, pauses []int, delay time.Duration, rng *R
 	time.Sleep(300 * time.Microsecond)
 	st := w.s.GetStats()
 	var sb strings.Builder
+	nilSeen := 0
 	for _, id := range w.processed() {
+		if id == -1 && nilPct > 0 {
+			id = c19ID(P, nilSeen)
+			nilSeen++
+		}
 		fmt.Fprintf(&sb, " %d", id)
 	}
 	var nsb strings.Builder
 	for p := range ns {
 		fmt.Fprintf(&nsb, " %d", atomic.LoadInt64(&issued[p]))
+	}
+	if nilPct > 0 {
+		fmt.Fprintf(&nsb, " %d", atomic.LoadInt64(&issued[P]))
+		fmt.Fprintf(&sb, " # nil-rows-are-producer %d", P)
 	}
 	o.Line("C19 R %s #%s # %d %d %d #%s", c, nsb.String(), st[stream.InputDroppedCount], st[stream.InputCount], st[stream.DataChanCap], sb.String())
 	o.Count(tag)
@@ -625,6 +672,10 @@ func runC19(tier string, seed uint64, o *Out) error {
 	}
 	// forced: the other producers take the slots an expansion has added before the expander's own second send
 	if err := c19ExpanderLosesRaceFamily(tier, NewRNG(seed+78), o); err != nil {
+		return err
+	}
+	// nil rows (Emit(nil)) at random positions of the backlog: forced schedules and concurrent runs (c19d.go)
+	if err := c19NilRowsFamily(tier, NewRNG(seed+80), o); err != nil {
 		return err
 	}
 	for i := 0; i < nSeq; i++ {
